@@ -66,6 +66,9 @@ type modelProd struct {
 	Kind   string // value of the `generated` constant
 	NTerms int
 	Method string // action method name for user productions
+	// Variadic: the model action method's last parameter is variadic (…T); the term at that position
+	// has the slice type _TtermV
+	Variadic bool
 }
 
 type FlagRegion struct {
@@ -473,6 +476,12 @@ func buildModel(p *Program, ts *TemplateSet) (*model, error) {
 			add(k, n)
 		}
 	}
+	// one more user production whose action method is variadic in its last parameter
+	add("not_generated", 2)
+	vp := m.prods[len(m.prods)-1]
+	vp.Variadic = true
+	vterms := m.prodObjs[len(m.prodObjs)-1].Fields["Terms"].(*jList)
+	vterms.Elems[1].(*jObj).Tag = variadicTermTag
 	m.grammar = &jObj{Kind: "grammar", GoType: "lr1.Grammar", Fields: map[string]any{
 		"Prods": &jList{Elems: prodList}, "Terminals": m.terminals,
 	}}
@@ -515,6 +524,9 @@ func generatedKinds(p *Program) ([]string, error) {
 	}
 	return out, nil
 }
+
+// variadicTermTag is the term index of the slice-typed term bound to a variadic parameter (_Tterm9).
+const variadicTermTag = 9
 
 var typePlaceholder = map[string]string{"term": "_Tterm", "rule": "_Trule", "param": "_Tparam"}
 
@@ -569,6 +581,8 @@ func (m *model) abstractValue(info *types.Info, name string, e ast.Expr, flags m
 				return &jObj{Kind: "method", GoType: "codegen.actionMethod", Fields: map[string]any{"Params": params},
 					Methods: map[string]func([]any) (any, error){"Name": func([]any) (any, error) {
 						return jGoText{Text: mp.Method, Cat: "ident"}, nil
+					}, "Variadic": func([]any) (any, error) {
+						return mp.Variadic, nil
 					}}}, nil
 			}}, nil
 		case typeIs(u.Key(), "parsergen/lr1", "Rule") && isGoTypesType(u.Elem()):
@@ -787,6 +801,9 @@ type _Tterm2 struct{ v int }
 
 func (_Tterm2) Discard() bool { return false }
 
+// the type of a term bound to a variadic parameter (…any)
+type _Tterm9 []any
+
 type _Trule struct{ v int }
 
 func (_Trule) Discard() bool { return false }
@@ -836,6 +853,10 @@ func instantiate(p *Program, ts *TemplateSet, flags map[string]bool) (*TmplInsta
 		}
 		var ps []string
 		for i := 0; i < mp.NTerms; i++ {
+			if mp.Variadic && i == mp.NTerms-1 {
+				ps = append(ps, fmt.Sprintf("a%d ...any", i))
+				continue
+			}
 			ps = append(ps, fmt.Sprintf("a%d any", i))
 		}
 		fmt.Fprintf(&pre, "\nfunc (p *_P) %s(%s) any { return nil }\n", mp.Method, strings.Join(ps, ", "))
